@@ -134,12 +134,13 @@ func (c *Ctx) buildSpecPrelude() (err error) {
 }
 
 func (c *Ctx) gen(fn *ssa.Function, prop string) (*Gen, error) {
-	return c.genWith(fn, prop, nil)
+	return c.genWith(fn, prop, nil, nil)
 }
 
-func (c *Ctx) genWith(fn *ssa.Function, prop string, forbid []Forbid) (*Gen, error) {
+func (c *Ctx) genWith(fn *ssa.Function, prop string, forbid []Forbid, orderHeaps []string) (*Gen, error) {
 	g := newGen(c.P, c.S, prop, fn, c.Frames)
 	g.forbid = forbid
+	g.orderHeaps = orderHeaps
 	g.preDecl = c.PreDecl
 	if err := g.Generate(); err != nil {
 		return nil, err
